@@ -189,12 +189,14 @@ class Redis(object):
 
     def scan(self, cursor=0, match=None, count=None):
         cursor = int(cursor)
-        keys = sorted(k for k in self.server.data if match is None or fnmatch.fnmatchcase(k, match))
+        # like the real server: COUNT keys of the *whole* keyspace are examined per call and MATCH is applied afterwards, so a
+        # page can come back empty while the cursor is not yet 0 (other stores share the keyspace under other prefixes)
+        keys = sorted(self.server.data)
         page = keys[cursor:cursor + self.server.scan_page]
         nxt = cursor + self.server.scan_page
         if nxt >= len(keys):
             nxt = 0
-        return nxt, [k.encode("utf8") for k in page]
+        return nxt, [k.encode("utf8") for k in page if match is None or fnmatch.fnmatchcase(k, match)]
 
     def pubsub(self, ignore_subscribe_messages=False):
         return PubSub(self, ignore_subscribe_messages)
